@@ -242,16 +242,12 @@ func contexts(thorough bool) []holeCtx {
 	if thorough {
 		cs = append(cs,
 			holeCtx{"map-key", func(x *Graph, _ int) *Graph { return wrap(x, func(t *Node) *Node { return mp(t, I) }) }},
-			holeCtx{"obj{c}", func(x *Graph, _ int) *Graph { return wrap(x, func(t *Node) *Node { return obj(fld("c", t)) }) }},
 			holeCtx{"obj{a,b,c*,d}", func(x *Graph, _ int) *Graph {
 				return wrap(x, func(t *Node) *Node { return obj(fld("a", I), fld("b", S), fld("c", t), fld("d", I)) })
 			}},
 			holeCtx{"union V{p}", func(x *Graph, _ int) *Graph { return wrap(x, func(t *Node) *Node { return uni("V", fld("p", t)) }) }},
 			holeCtx{"union{p,q*,r,s}", func(x *Graph, _ int) *Graph {
 				return wrap(x, func(t *Node) *Node { return uni("U", fld("p", I), fld("q", t), fld("r", S), fld("s", I)) })
-			}},
-			holeCtx{"union{p,q*}", func(x *Graph, _ int) *Graph {
-				return wrap(x, func(t *Node) *Node { return uni("U", fld("p", S), fld("q", t)) })
 			}},
 		)
 	}
